@@ -131,6 +131,21 @@ pub fn rungs() -> Vec<Rung> {
         f.push(fs(5, 1));
         Case { prior: vec![v9_tpl_packet(256, &f)], input: v9_packet(&V9Pkt::new(vec![V9Set::Data(256, distinct(nd, 1))])) }
     }));
+    // ---- under-declared fixed-width fields: nf IPv4 fields declared with length 0 (the decoder reads 4 bytes each
+    // whatever the template says) + one 1-byte field: the declared record length (1) is far below the consumed one
+    for ipfix in [false, true] {
+        let pn = if ipfix { "ipfix" } else { "v9" };
+        let tpl = move |nf: usize| -> Vec<u8> {
+            let mut f: Vec<FieldSpec> = (0..nf).map(|_| fs(8, 0)).collect();
+            f.push(fs(if ipfix { 4 } else { 5 }, 1));
+            if ipfix { ipfix_tpl_msg(256, &f) } else { v9_tpl_packet(256, &f) }
+        };
+        let data = move |n: usize| -> Vec<u8> {
+            if ipfix { ipfix_message(&IpfixMsg::new(vec![IpfixSet::Data(256, distinct(n, 1))])) } else { v9_packet(&V9Pkt::new(vec![V9Set::Data(256, distinct(n, 1))])) }
+        };
+        v.push(rung(&format!("{}-nf-under-declared-ipv4-fields-x-60000-data-bytes", pn), 2048, move |nf| Case { prior: vec![tpl(nf)], input: data(60000) }));
+        v.push(rung(&format!("{}-64-under-declared-ipv4-fields-x-n-data-bytes", pn), 65535 - 24, move |n| Case { prior: vec![tpl(64)], input: data(n) }));
+    }
     // ---- announced counts over short bodies (n = announced count; the body holds 2 units)
     v.push(rung("v5-announced-count-over-2-records", 65535, |n| {
         let mut b = fixed_distinct(5, 2, 0);
